@@ -20,6 +20,9 @@ SPEC = r"""
 #[verifier::external_body] pub fn executing_class_owned(n: &Node) -> (r: ClassV) { unimplemented!() }
 // AssocFileData::did_scope_exit_with_value_if_required: the innermost scope is not (still) waiting for a return
 #[verifier::external_body] pub fn did_scope_exit_with_value_if_required(u: &UD) -> (r: bool) requires statuses(u).len() > 0 ensures r == !(statuses(u).last() is Should) { unimplemented!() }
+// ScopeHandle::consume: the frame is closed NOW; its return status is handed back
+#[verifier::external_body] pub fn pop_scope_status(u: &mut UD) -> (r: ScopeReturnStatus) requires statuses(old(u)).len() > 0
+    ensures statuses(final(u)) == statuses(old(u)).drop_last(), r == statuses(old(u)).last() { unimplemented!() }
 pub struct MemberFunction { pub ident: IdentV, pub parameters: ParamsV, pub body: BlockV, pub class_type: ClassV }
 """
 
@@ -34,8 +37,12 @@ def build(repo):
         Rule("R6", "Self :: ident ( ident ) . to_err_vec ( ) ?", "parse_ident ( ident ) ?", why="sub-parser abstract"),
         Rule("R6", "Self :: function_return_type ( maybe_body ) . to_err_vec ( ) ?", "function_return_type ( maybe_body ) ?", why="sub-parser abstract"),
         Rule("R10", "let _scope_handle = input . user_data ( ) . push_function ( return_type . clone ( ) ) ;", "push_scope ( ud , clone_status ( & return_type ) ) ;", why="scope stack as explicit state (R10); the handle pops the scope at the end of the function (not modelled: the contract looks at the state before)"),
+        Rule("R10", "let $h = input . user_data ( ) . push_function ( return_type . clone ( ) ) ;", "push_scope ( ud , clone_status ( & return_type ) ) ;", why="scope stack as explicit state (R10), handle bound to another name"),
+        Rule("R10", "let $h = input . user_data ( ) . push_function ( return_type ) ;", "push_scope ( ud , return_type ) ;", why="scope stack as explicit state (R10), handle bound to another name"),
+        Rule("R10", "$h . consume ( )", "pop_scope_status ( ud )", why="ScopeHandle::consume: the frame is closed at this point (R10)"),
         Rule("R6", "Rc :: new ( Self :: function_parameters ( parameters , $$f ) . to_err_vec ( ) ? )", "function_parameters ( parameters , ud ) ?", why="sub-parser abstract (declares the parameters in the function scope)"),
         Rule("R6", "Self :: block ( body ) ?", "parse_block ( body , ud ) ?", why="sub-parser abstract: marks the innermost scope iff every path of the block returns"),
+        Rule("R6", "Self :: block ( body )", "parse_block ( body , ud )", why="sub-parser abstract (result handled later)"),
         Rule("R6", "input . user_data ( ) . did_scope_exit_with_value_if_required ( )", "did_scope_exit_with_value_if_required ( ud )", why="scope stack as explicit state (R10)"),
         Rule("R3", "return Err ( vec ! [ new_err ( $$a ) ] ) ;", "return Err ( VErr ) ;", why="diagnostic construction dropped (that a diagnostic IS returned is kept)"),
         Rule("R6", "FunctionType :: new ( parameters . clone ( ) , return_type , true , false )", "fn_type_new ( & parameters , return_type )", why="abstract constructor"),
